@@ -25,6 +25,9 @@ ASSUMPTIONS = ['Robinson unifier with occurs check (ypv/refA.py unify) is the or
                'are discarded (STO, unspecified by the property)',
                'Python constants are ints, strs, None, non-integral floats, bytes and tuples; values that Python '
                'itself equates across types (1 == True == 1.0) are not mixed']
+RULE_ADDED = (' Added after the rounds of independently written changes (DESIGN.md 12.2): ' +
+              'terms from two engines and from a cleared engine; terms of 15-300 nodes; unifications created before the bindings they start under; term objects built under bindings that are undone before use; Python constants None, floats, bytes, tuples.')
+RULE = RULE + RULE_ADDED
 
 POOL = [V('X%d' % i) for i in range(5)]
 
